@@ -53,6 +53,7 @@ type TermInCommittee struct {
 	prevBlock                       interfaces.Block
 	QuorumWeight                    uint // TODO primitive
 	State                           *state.State
+	instanceId                      primitives.InstanceId
 }
 
 func GetMemberIds(members []interfaces.CommitteeMember) []primitives.MemberId {
@@ -99,6 +100,7 @@ func NewTermInCommittee(log L.LHLogger, config *interfaces.Config, state *state.
 		messageFactory:          messageFactory,
 		myMemberId:              myMemberId,
 		logger:                  log,
+		instanceId:              config.InstanceId,
 	}
 
 	result.startTerm(canBeFirstLeader)
@@ -688,6 +690,9 @@ func (tic *TermInCommittee) isViewChangeValid(expectedLeaderFromNewView primitiv
 	if header.MessageType() != protocol.LEAN_HELIX_VIEW_CHANGE {
 		return errors.Errorf("VIEW_CHANGE signed header has message type %v", header.MessageType())
 	}
+	if header.InstanceId() != tic.instanceId {
+		return errors.Errorf("VIEW_CHANGE is for instance %s", header.InstanceId())
+	}
 	if !proofsvalidator.IsInMembers(tic.committeeMembers, sender.MemberId()) {
 		return errors.Errorf("VIEW_CHANGE sender %s is not a committee member", Str(sender.MemberId()))
 	}
@@ -698,6 +703,9 @@ func (tic *TermInCommittee) isViewChangeValid(expectedLeaderFromNewView primitiv
 		ppRef, pRef := preparedProof.PreprepareBlockRef(), preparedProof.PrepareBlockRef()
 		if ppRef.MessageType() != protocol.LEAN_HELIX_PREPREPARE || pRef.MessageType() != protocol.LEAN_HELIX_PREPARE {
 			return errors.Errorf("prepared proof block refs have message types %v, %v", ppRef.MessageType(), pRef.MessageType())
+		}
+		if ppRef.InstanceId() != tic.instanceId || pRef.InstanceId() != tic.instanceId {
+			return errors.Errorf("prepared proof is for instance %s, %s", ppRef.InstanceId(), pRef.InstanceId())
 		}
 	}
 
